@@ -1,6 +1,7 @@
 package main
 
 import (
+	"bufio"
 	"bytes"
 	"context"
 	"fmt"
@@ -41,6 +42,17 @@ func cmdJSON(o *Out, line string, f []string) {
 		case tok == "BAD":
 			text.WriteString("{\"a\": 1, \"b\": \n")
 			hasBad = true
+		case strings.HasPrefix(tok, "PADL") || strings.HasPrefix(tok, "PADS"):
+			// PADL<n>:<hex> / PADS<n>:<hex>: the document in a line of exactly n bytes; L/S = whether bufio.Scanner
+			// (run by the generator on the same text) refuses the line as too long
+			colon := strings.IndexByte(tok, ':')
+			n := int(atoi64(tok[4:colon]))
+			text.Write(paddedLine(unhx(tok[colon+1:]), n))
+			text.WriteByte('\n')
+			if tok[3] == 'L' {
+				hasLong = true
+			}
+			parsed = append(parsed, tok[colon+1:])
 		case strings.HasPrefix(tok, "LONG"):
 			var d bson.D
 			if err := bson.Unmarshal(unhx(tok[4:]), &d); err != nil {
@@ -106,6 +118,38 @@ func cmdJSON(o *Out, line string, f []string) {
 	}
 	o.nontrivial(line)
 	o.count(fmt.Sprintf("json-flush%d", flushMs))
+}
+
+// paddedLine renders the document as one JSON line of exactly n bytes (a leading string field takes the slack)
+func paddedLine(doc []byte, n int) []byte {
+	var d bson.D
+	if err := bson.Unmarshal(doc, &d); err != nil {
+		panic(err)
+	}
+	mk := func(k int) []byte {
+		js, err := bson.MarshalExtJSON(append(bson.D{{Key: "pad", Value: strings.Repeat("x", k)}}, d...), false, false)
+		if err != nil {
+			panic(err)
+		}
+		return js
+	}
+	base := len(mk(0))
+	if n < base {
+		panic("padded line shorter than the document")
+	}
+	js := mk(n - base)
+	if len(js) != n {
+		panic("padded line has the wrong length")
+	}
+	return js
+}
+
+// scannerRefuses: does bufio.Scanner (default buffer, as the library uses it) refuse this text?
+func scannerRefuses(text []byte) bool {
+	sc := bufio.NewScanner(bytes.NewReader(text))
+	for sc.Scan() {
+	}
+	return sc.Err() != nil
 }
 
 // slowReader delivers the text in small pieces with pauses so that flush timers fire in between
@@ -202,6 +246,28 @@ func streamJSON(o *Out, rng *rand.Rand, thorough bool, _ []string) {
 	run(o, fmt.Sprintf("json 3 0 | %s %s BAD NOEOL", hx(mkDoc(0, 1)), hx(mkDoc(0, 2))))
 	run(o, fmt.Sprintf("json 3 0 | %s LONG%s NOEOL", hx(mkDoc(0, 1)), hx(mkDoc(0, 2))))
 	run(o, fmt.Sprintf("json 2 0 | %s NOEOL", hx(mkDoc(1, 1))))
+	// line lengths around the scanner's 64 KiB buffer, terminated and not, last and in the middle
+	for _, n := range []int{65534, 65535, 65536, 65537, 131072} {
+		for _, eol := range []bool{true, false} {
+			line := paddedLine(mkDoc(0, 3), n)
+			text := append(append([]byte{}, line...), '\n')
+			if !eol {
+				text = line
+			}
+			cls := "PADS"
+			if scannerRefuses(text) {
+				cls = "PADL"
+			}
+			tail := ""
+			if !eol {
+				tail = " NOEOL"
+			}
+			run(o, fmt.Sprintf("json 3 0 | %s %s %s%d:%s%s", hx(mkDoc(0, 1)), hx(mkDoc(0, 2)), cls, n, hx(mkDoc(0, 3)), tail))
+			if eol {
+				run(o, fmt.Sprintf("json 2 0 | %s %s%d:%s %s", hx(mkDoc(0, 1)), cls, n, hx(mkDoc(0, 3)), hx(mkDoc(0, 2))))
+			}
+		}
+	}
 	// line lengths across the 64 KiB scanner limit are covered by LONG; a long but legal line:
 	run(o, fmt.Sprintf("json 3 0 | %s %s", hx(mkDoc(0, 1)), hx(mkDoc(0, 2))))
 }
